@@ -24,6 +24,11 @@ type c17Stale struct {
 	Helper      *ssa.Function
 	HelperObj   int    // index (in Helper.Params / Site args) of the object whose generation is compared
 	HelperWhy   string // non-empty: the helper's result is not exactly the stale verdict
+	// Lookup: the NestedInt64 call sits in this helper, which hands back (value, found) with
+	// found == (err == nil && ok); Og/Ok are the results of the helper call in the analysed function,
+	// Err is nil (folded into Ok).
+	Lookup    *ssa.Function
+	LookupWhy string // non-empty: the helper is not recognised as such a lookup
 }
 
 // c17StaleCalls: the observedGeneration tests of f: unstructured.NestedInt64(x, ..., "observedGeneration")
@@ -49,6 +54,11 @@ func (p *Program) c17StaleCalls(f *ssa.Function) []c17Stale {
 			continue
 		}
 		if res := h.Signature.Results(); res.Len() != 1 || res.At(0).Type().String() != "bool" {
+			// a helper that only performs the lookup and hands back (value, found): the comparison with
+			// the generation stays with f
+			if lk, ok := p.c17LookupHelperCall(call, h); ok {
+				out = append(out, lk)
+			}
 			continue
 		}
 		for _, hc := range callsIn(h) {
@@ -76,6 +86,101 @@ func (p *Program) c17StaleCalls(f *ssa.Function) []c17Stale {
 		}
 	}
 	return out
+}
+
+// c17LookupHelperCall: call is a call of helper h that performs unstructured.NestedInt64 on its
+// parameters and hands back the value together with one flag that folds `err == nil && found`
+// (results: one int64, one bool, in either order). The flag must be true only under err==nil ∧ found —
+// then with the looked-up value as the int64 result — and false only under err!=nil ∨ !found: a
+// declared observedGeneration is never reported as absent. The test then reads, in f,
+// `flag && value != generation`; Err is folded into Ok.
+func (p *Program) c17LookupHelperCall(call *ssa.Call, h *ssa.Function) (c17Stale, bool) {
+	res := h.Signature.Results()
+	if res.Len() != 2 {
+		return c17Stale{}, false
+	}
+	vi, fi := -1, -1
+	for i := 0; i < 2; i++ {
+		switch res.At(i).Type().String() {
+		case "int64":
+			vi = i
+		case "bool":
+			fi = i
+		}
+	}
+	if vi < 0 || fi < 0 {
+		return c17Stale{}, false
+	}
+	for _, hc := range callsIn(h) {
+		n, ok := hc.Instr.(*ssa.Call)
+		if !ok || !isCallTo(hc.Common, pkgUnstr+".NestedInt64") || len(n.Call.Args) != 2 {
+			continue
+		}
+		mi, pi := paramIndex(h, n.Call.Args[0]), paramIndex(h, n.Call.Args[1])
+		if mi < 0 || mi >= len(call.Call.Args) {
+			continue
+		}
+		var path []string
+		if pi >= 0 && pi < len(call.Call.Args) {
+			path, ok = c17VariadicConsts(call.Call.Args[pi])
+		} else {
+			path, ok = c17VariadicConsts(n.Call.Args[1])
+		}
+		if !ok || len(path) == 0 || path[len(path)-1] != "observedGeneration" {
+			continue
+		}
+		og, okv, errv := c16Extract(n, 0), c16Extract(n, 1), c16Extract(n, 2)
+		if og == nil || okv == nil || errv == nil {
+			continue
+		}
+		st := c17Stale{N: n, Og: c16Extract(call, vi), Ok: c16Extract(call, fi), Site: call, Map: call.Call.Args[mi], Path: path,
+			Lookup: h}
+		nTrue := 0
+		for _, rc := range p.c17ReturnCases(h) {
+			if len(rc.Results) != 2 {
+				st.LookupWhy = "unexpected results"
+				continue
+			}
+			for _, lf := range p.c17Expand(rc.Results[fi], rc.Facts, 0) {
+				var pols []bool
+				if v, isConst := c17ConstBoolResult(lf.V); isConst {
+					pols = []bool{v}
+				} else {
+					pols = []bool{true, false}
+				}
+				for _, pol := range pols {
+					fs := lf.Facts
+					if len(pols) == 2 {
+						fs = append(append([]Fact{}, lf.Facts...), p.mkFact(lf.V, pol))
+					}
+					declared := p.nilnessFromFacts(fs, errv) == yesTri && p.boolFromFacts(fs, okv) == yesTri
+					absent := p.nilnessFromFacts(fs, errv) == noTri || p.boolFromFacts(fs, okv) == noTri
+					switch {
+					case pol && !declared:
+						st.LookupWhy = fmt.Sprintf("%s reports a value at %s without err==nil ∧ found", h.Name(), p.IPos(rc.Ret))
+					case pol:
+						nTrue++
+						for _, vl := range p.c17Expand(rc.Results[vi], fs, 0) {
+							if !p.sameValue(vl.V, og) {
+								st.LookupWhy = fmt.Sprintf("%s hands back %s at %s, not the looked-up value", h.Name(), c17Short(p.describe(vl.V)), p.IPos(rc.Ret))
+							}
+						}
+					case !absent:
+						st.LookupWhy = fmt.Sprintf("%s may report a declared observedGeneration as absent at %s", h.Name(), p.IPos(rc.Ret))
+					}
+				}
+			}
+		}
+		if nTrue == 0 && st.LookupWhy == "" {
+			st.LookupWhy = h.Name() + " never reports a value"
+		}
+		if st.Og == nil || st.Ok == nil {
+			// the results are not consumed by f: no test there
+			continue
+		}
+		return st, true
+	}
+	return c17Stale{}, false
 }
 
 type c17BoolCase struct {
@@ -145,10 +250,10 @@ func (p *Program) c17IsStale(fs []Fact, st c17Stale, obj ssa.Value) bool {
 		}
 		return p.boolFromFacts(fs, st.Site) == yesTri
 	}
-	if st.Og == nil || st.Ok == nil || st.Err == nil {
+	if st.Og == nil || st.Ok == nil || (st.Err == nil && st.Lookup == nil) || st.LookupWhy != "" {
 		return false
 	}
-	if p.nilnessFromFacts(fs, st.Err) != yesTri || p.boolFromFacts(fs, st.Ok) != yesTri {
+	if (st.Err != nil && p.nilnessFromFacts(fs, st.Err) != yesTri) || p.boolFromFacts(fs, st.Ok) != yesTri {
 		return false
 	}
 	for _, f := range fs {
@@ -170,10 +275,10 @@ func (p *Program) c17NotStale(fs []Fact, st c17Stale, obj ssa.Value) bool {
 	if st.Helper != nil {
 		return p.boolFromFacts(fs, st.Site) == noTri
 	}
-	if st.Og == nil || st.Ok == nil || st.Err == nil {
+	if st.Og == nil || st.Ok == nil || (st.Err == nil && st.Lookup == nil) || st.LookupWhy != "" {
 		return false
 	}
-	if p.nilnessFromFacts(fs, st.Err) == noTri || p.boolFromFacts(fs, st.Ok) == noTri {
+	if (st.Err != nil && p.nilnessFromFacts(fs, st.Err) == noTri) || p.boolFromFacts(fs, st.Ok) == noTri {
 		return true
 	}
 	for _, f := range fs {
@@ -195,6 +300,9 @@ func (p *Program) c17NotStale(fs []Fact, st c17Stale, obj ssa.Value) bool {
 func (p *Program) c17StaleOnlyFails(f *ssa.Function, st c17Stale, obj ssa.Value) (tri, string) {
 	if st.Helper != nil && st.HelperWhy != "" {
 		return unknownTri, "the observedGeneration test was extracted into " + st.Helper.Name() + ", whose result is not recognised as the stale verdict: " + st.HelperWhy
+	}
+	if st.Lookup != nil && st.LookupWhy != "" {
+		return unknownTri, "the observedGeneration lookup was extracted into " + st.Lookup.Name() + ", which is not recognised as handing back exactly (value, err==nil ∧ found): " + st.LookupWhy
 	}
 	rcs := p.c17ReturnCases(f)
 	n := 0
@@ -583,6 +691,60 @@ func c17FieldNil(fs []Fact, prm *ssa.Parameter, field string) tri {
 	return unknownTri
 }
 
+// c17FieldOfWhole: the values field `name` of the struct value v can hold, v being the load of a local
+// variable that is filled field by field or by a literal (every definition that can be in effect at
+// the load; ok=false when one of them is the zero value or unknown).
+func (p *Program) c17FieldOfWhole(v ssa.Value, name string) (vals []ssa.Value, ok bool) {
+	ld, isLoad := stripConv(v).(*ssa.UnOp)
+	if !isLoad || ld.Op != token.MUL {
+		return nil, false
+	}
+	a, isAlloc := ld.X.(*ssa.Alloc)
+	if !isAlloc {
+		return nil, false
+	}
+	st, isStruct := a.Type().Underlying().(*types.Pointer).Elem().Underlying().(*types.Struct)
+	if !isStruct {
+		return nil, false
+	}
+	field := -1
+	for i := 0; i < st.NumFields(); i++ {
+		if st.Field(i).Name() == name {
+			field = i
+		}
+	}
+	if field < 0 {
+		return nil, false
+	}
+	defs, known := p.fieldDefsAt(a, field, ld, nil)
+	if !known || len(defs) == 0 {
+		return nil, false
+	}
+	for _, d := range defs {
+		switch {
+		case d.Val != nil:
+			vals = append(vals, d.Val)
+		case d.Whole != nil:
+			sub, ok := p.c17FieldOfWhole(d.Whole, name)
+			if !ok {
+				return nil, false
+			}
+			vals = append(vals, sub...)
+		default:
+			return nil, false // may still hold the zero value
+		}
+	}
+	return vals, true
+}
+
+// c17MsLen: the length of a make([]T, len, cap); nil for a nil MakeSlice.
+func c17MsLen(ms *ssa.MakeSlice) ssa.Value {
+	if ms == nil {
+		return nil
+	}
+	return ms.Len
+}
+
 func c17r3(c *Ctx) {
 	p := c.P
 	// wrapper types (generation guards) and selector types, from the Probe implementations
@@ -924,21 +1086,84 @@ func c17r3(c *Ctx) {
 				}
 			}
 		}
-		if store == nil {
+		// the same list built by appending: it starts empty, every iteration appends exactly the one
+		// prober of its entry, so entry i sits at index i and the list has len(entries) elements once
+		// the loop over all entries has run to its end
+		var site ssa.Instruction
+		var listVal ssa.Value
+		if store != nil {
+			site, listVal = store, list
+			if lc, _ := asCall(list.Len); lc == nil || !isCallTo(lc.Common(), "builtin:len") || lc.Call.Args[0] != ssa.Value(pp) {
+				pr = append(pr, "the list has length "+p.describe(list.Len)+", not len(entries)")
+			}
+		} else if ps0 != nil {
+			for _, cl := range callsIn(f) {
+				ap, ok := cl.Instr.(*ssa.Call)
+				if !ok || !isCallTo(cl.Common, "builtin:append") || len(ap.Call.Args) != 2 {
+					continue
+				}
+				elems, ok := sliceElems(ap.Call.Args[1])
+				if !ok || len(elems) != 1 {
+					continue
+				}
+				vals := p.c17PhiUnderFacts(elems[0], p.FactsAt(ap.Block()), 0)
+				hit := false
+				for _, v := range vals {
+					if p.sameValue(v, ps0) {
+						hit = true
+					}
+				}
+				if !hit {
+					continue
+				}
+				al := innermostLoop(f, ap.Block())
+				ph, isPhi := ap.Call.Args[0].(*ssa.Phi)
+				if al == nil || !isPhi || ph.Block() != al.Head {
+					pr = append(pr, "the selector parser's result is appended at "+p.IPos(ap)+" to "+c17Short(p.describe(ap.Call.Args[0]))+", which is not the list carried around the loop over the entries")
+					site, listVal = ap, ap
+					continue
+				}
+				for _, v := range vals {
+					if !p.sameValue(v, ps0) {
+						pr = append(pr, fmt.Sprintf("the value appended at %s may also be %s, not the result of the selector parser", p.IPos(ap), p.describe(v)))
+					}
+				}
+				for i, e := range ph.Edges {
+					switch {
+					case al.Body[ph.Block().Preds[i]]:
+						if stripConv(e) != ssa.Value(ap) {
+							pr = append(pr, "the list carried into the next iteration may be "+c17Short(p.describe(e))+", not the list extended by this entry's prober")
+						}
+					case c17IsNilResult(e):
+					default:
+						ms, isMS := stripConv(e).(*ssa.MakeSlice)
+						if n, isConst := constInt(c17MsLen(ms)); !isMS || !isConst || n != 0 {
+							pr = append(pr, "the list the probers are appended to starts as "+c17Short(p.describe(e))+", which is not an empty list")
+						}
+					}
+				}
+				site, listVal = ap, ph
+				if iff, isIf := al.Head.Instrs[len(al.Head.Instrs)-1].(*ssa.If); isIf {
+					if cond, isBin := iff.Cond.(*ssa.BinOp); isBin {
+						sidx = cond.X
+					}
+				}
+			}
+		}
+		if site == nil {
 			o.Fail("the result of the selector parser is not stored into a freshly made list")
 			continue
 		}
-		if lc, _ := asCall(list.Len); lc == nil || !isCallTo(lc.Common(), "builtin:len") || lc.Call.Args[0] != ssa.Value(pp) {
-			pr = append(pr, "the list has length "+p.describe(list.Len)+", not len(entries)")
-		}
-		l := innermostLoop(f, store.Block())
+		l := innermostLoop(f, site.Block())
 		if l == nil {
 			pr = append(pr, "entries are not processed in a loop")
+		} else if sidx == nil {
+			pr = append(pr, "loop header does not end in a bounds test")
 		} else {
 			if ok, why := p.c17LoopOverSlice(l, pp, sidx); !ok {
 				pr = append(pr, why)
 			}
-			if !p.mustPrecedeInLoop(l, store) {
+			if !p.mustPrecedeInLoop(l, site) {
 				pr = append(pr, "an iteration can continue without storing its prober")
 			}
 			rcs := p.c17ReturnCases(f)
@@ -964,7 +1189,7 @@ func c17r3(c *Ctx) {
 				if !c17ErrResultIsNil(rc) {
 					continue
 				}
-				if stripConv(rc.Results[0]) != ssa.Value(list) {
+				if stripConv(rc.Results[0]) != listVal {
 					pr = append(pr, fmt.Sprintf("error-free return at %s yields %s, not the list of all entries", p.IPos(rc.Ret), p.describe(rc.Results[0])))
 				}
 			}
@@ -993,7 +1218,7 @@ func c17r3(c *Ctx) {
 				}
 			}
 		}
-		fs := p.FactsAt(store.Block())
+		fs := p.FactsAt(site.Block())
 		if !p.errOfCallIsNil(fs, ppCall) || !p.errOfCallIsNil(fs, psCall) {
 			pr = append(pr, "the store is not dominated by the error-free edges of both parsers")
 		}
@@ -1039,10 +1264,19 @@ func c17r3(c *Ctx) {
 					pr = append(pr, "the kind selector can be returned without the label selector although selector.Selector may be set")
 				}
 				for _, fn := range []string{"Group", "Kind"} {
-					v, ok := nested["GroupKind."+fn]
-					root, path := c17FieldPath(v)
-					if !ok || !c17IsParamOrSpill(root, sel) || strings.Join(path, ".") != "Kind."+fn {
-						pr = append(pr, "kind selector's GroupKind."+fn+" is "+p.describe(v)+", not selector.Kind."+fn)
+					vs, ok := []ssa.Value{nested["GroupKind."+fn]}, nested["GroupKind."+fn] != nil
+					if !ok {
+						// the pair assigned as one value that was itself filled field by field
+						vs, ok = p.c17FieldOfWhole(fields["GroupKind"], fn)
+					}
+					if !ok {
+						pr = append(pr, "kind selector's GroupKind."+fn+" is "+p.describe(nil)+", not selector.Kind."+fn)
+					}
+					for _, v := range vs {
+						root, path := c17FieldPath(v)
+						if !ok || !c17IsParamOrSpill(root, sel) || strings.Join(path, ".") != "Kind."+fn {
+							pr = append(pr, "kind selector's GroupKind."+fn+" is "+p.describe(v)+", not selector.Kind."+fn)
+						}
 					}
 				}
 				if fields["Prober"] == nil {
